@@ -11,9 +11,11 @@ import (
 	"fmt"
 	"math"
 	"regexp"
+	"runtime"
 	"sort"
 	"strconv"
 	"strings"
+	"time"
 	"unicode/utf8"
 
 	"pgregory.net/rapid"
@@ -473,4 +475,48 @@ func dump(vt *multiterm.VirtualTerm) string {
 		fmt.Fprintf(&sb, "\n  %2d: %s", i, pbt.Trunc(strconv.Quote(vt.Get(i)), 200))
 	}
 	return sb.String()
+}
+
+// ---------- bounded cases: what a watchdog hit means ------------------------------
+
+// caseWatchdog: a case holds <= 60 samples, <= 25 rows x 40 columns and is
+// rendered <= 5 times: well under 10 ms of CPU. The driver allows
+// caseWatchdog plus 12x as much grace (65 s) before it calls a case
+// non-terminating, four orders of magnitude above an honest case.
+const caseWatchdog = 5 * time.Second
+
+// heapGuard runs an oracle and watches the heap while it has not returned:
+// a layout loop that never advances but keeps writing (the heatmap header
+// with an empty column key did) grows the heap without bound. Growth by 1 GiB
+// over the start of the case - an honest case allocates well under 10 MiB -
+// is reported as non-termination at once, instead of after the driver's
+// wall-clock limit when tens of GiB are gone. Independent of machine load.
+func heapGuard[C any](f func(C) error) func(C) error {
+	return func(c C) error {
+		start := time.Now()
+		done := make(chan error, 1)
+		go func() { done <- pbt.Guard(func() error { return f(c) }) }()
+		first := time.NewTimer(250 * time.Millisecond)
+		defer first.Stop()
+		select {
+		case err := <-done:
+			return err
+		case <-first.C:
+		}
+		var base, ms runtime.MemStats
+		runtime.ReadMemStats(&base)
+		tick := time.NewTicker(100 * time.Millisecond)
+		defer tick.Stop()
+		for {
+			select {
+			case err := <-done:
+				return err
+			case <-tick.C:
+				runtime.ReadMemStats(&ms)
+				if ms.HeapAlloc > base.HeapAlloc+1<<30 {
+					return pbt.ErrHang{After: time.Since(start).Round(time.Millisecond)}
+				}
+			}
+		}
+	}
 }
